@@ -143,6 +143,53 @@ pub fn op_probe(req: &J) -> J {
   json!({"built": true, "invocables": names, "results": results})
 }
 
+/// History of invocations over several models built once:
+/// {"models":[xml...], "ops":[[model index, invocable name, input ctx]...]} -> per step the value and the rendering of the
+/// supplied input context before/after the call.
+pub fn op_mhistory(req: &J) -> J {
+  let empty = vec![];
+  let mut evaluators = vec![];
+  let mut built = vec![];
+  for x in req.get("models").and_then(|x| x.as_array()).unwrap_or(&empty) {
+    let xml = x.as_str().unwrap_or("");
+    match dmntk_model::parse(xml) {
+      Ok(defs) => match ModelEvaluator::new(&defs) {
+        Ok(me) => {
+          evaluators.push(Some(me));
+          built.push(json!({"ok": true}));
+        }
+        Err(e) => {
+          evaluators.push(None);
+          built.push(json!({"build_err": e.to_string()}));
+        }
+      },
+      Err(e) => {
+        evaluators.push(None);
+        built.push(json!({"parse_err": e.to_string()}));
+      }
+    }
+  }
+  let mut steps = vec![];
+  for op in req.get("ops").and_then(|x| x.as_array()).unwrap_or(&empty) {
+    let m = op.get(0).and_then(|x| x.as_u64()).unwrap_or(u64::MAX) as usize;
+    let name = op.get(1).and_then(|x| x.as_str()).unwrap_or("");
+    let input = match input_ctx(op.get(2)) {
+      Ok(c) => c,
+      Err(e) => return json!({ "error": e }),
+    };
+    match evaluators.get(m) {
+      Some(Some(me)) => {
+        let before = input.to_string();
+        let v = me.evaluate_invocable(name, &input);
+        steps.push(json!({"value": vj(&v), "input_before": before, "input_after": input.to_string()}));
+      }
+      Some(None) => steps.push(json!({"skipped": true})),
+      None => return json!({"error": "model index out of range"}),
+    }
+  }
+  json!({"built": built, "steps": steps})
+}
+
 pub fn table_json(t: &DecisionTable) -> J {
   json!({
     "information_item_name": t.information_item_name,
